@@ -55,7 +55,7 @@ package types
 //@   nopanic[*]
 //@   ensures[* failclosed] err != nil ==> ret == nil
 //@   ensures[* found] err == nil ==> ret != nil && fresh(ret) && forall j int :: 0 <= j && j < len(ret.Nodes) ==>
-//@   |   ret.Nodes[j] != nil && StHas("nodeinfo", ret.Nodes[j].Id) && ret.Nodes[j].NodeId == nodeid
+//@   |   ret.Nodes[j] != nil && StHas("nodeinfo", ret.Nodes[j].Id) && ret.Nodes[j].NodeId == nodeid && ret.Nodes[j].WrappingKeyId == ""
 //@   |   && loadedFrom(ret.Nodes[j], StGet("nodeinfo", ret.Nodes[j].Id))
 //@   loop 0 invariant[shape] fresh(nodeInfosToReturn) && 0 <= rangeindex + 1 && nodeInfo != nil && fresh(nodeInfo)
 // every element the storage returned (processed or not: decryptForLoad only rewrites the sealed key and the wrapping key id)
@@ -63,7 +63,7 @@ package types
 //@   |   nodeInfo.Nodes[i] != nil && fresh(nodeInfo.Nodes[i]) && StHas("nodeinfo", nodeInfo.Nodes[i].Id) && nodeInfo.Nodes[i].NodeId == nodeid
 //@   |   && loadedFrom(nodeInfo.Nodes[i], StGet("nodeinfo", nodeInfo.Nodes[i].Id))
 //@   loop 0 invariant[elems] forall j int :: 0 <= j && j < len(nodeInfosToReturn) ==>
-//@   |   nodeInfosToReturn[j] != nil && StHas("nodeinfo", nodeInfosToReturn[j].Id) && nodeInfosToReturn[j].NodeId == nodeid
+//@   |   nodeInfosToReturn[j] != nil && StHas("nodeinfo", nodeInfosToReturn[j].Id) && nodeInfosToReturn[j].NodeId == nodeid && nodeInfosToReturn[j].WrappingKeyId == ""
 //@   |   && loadedFrom(nodeInfosToReturn[j], StGet("nodeinfo", nodeInfosToReturn[j].Id))
 
 // ---------------------------------------------------------------- root_certificates.go
